@@ -18,7 +18,7 @@ m = dict(version=1, setup_cmd="./vcheck setup",
          engines=[dict(name="vcheck", path="vcheck", serves_properties=[c["property_id"] for c in checks],
                        kind_free_text="Coq 8.16 development (coq/: model, spec, proofs, props) + regenerated table/key proofs + differential correspondence (Rust harness vs Coq-extracted OCaml oracle)")],
          checks=checks,
-         notes="Every check rebuilds the harness against /repo's working tree, regenerates gen/ImplTables.v and gen/ZobristKeys.v from the running library, re-checks the property's Coq obligations (Print Assumptions must be closed), and runs the model/implementation correspondence. See DESIGN.md.",
+         notes="Every check rebuilds the harness against /repo's working tree, regenerates gen/ImplTables.v and gen/ZobristKeys.v from the running library and gen/PgnPatterns.v from src/games.rs, re-checks the property's Coq obligations (Print Assumptions must be closed), and runs the model/implementation correspondence. See DESIGN.md.",
          not_applicable=[dict(property_id=p, reason=CLAIMS[p]["not_applicable"]) for p in sorted(CLAIMS) if CLAIMS[p].get("not_applicable")])
 json.dump(m, open(os.path.join(V, "MANIFEST.json"), "w"), indent=1)
 print("MANIFEST.json: %d checks, %d not_applicable" % (len(checks), len(m["not_applicable"])))
